@@ -90,3 +90,40 @@ func TestVerifFindingC02_DelegateForDirtyOrigin(t *testing.T) { c02Run(t, big.Ne
 
 // control: without attached value the signer is not journal-dirty and the supply is conserved
 func TestVerifFindingC02_Control_NoValue(t *testing.T) { c02Run(t, nil) }
+
+// C02-F5: a delegation to a validator at which the delegator already has pending rewards makes the staking hooks pay those
+// rewards into the delegator's bank balance. The precompile mirrors only "- amount" into the EVM's cached balance of the
+// caller (loaded before the payout), so the final Commit writes balance - amount back and the rewards are burned - in the
+// most ordinary topology, an EOA calling the precompile directly.
+func TestVerifFindingC02_DelegateWithPendingRewardsBurnsThem(t *testing.T) {
+	ds := new(PrecompileTestSuite)
+	ds.SetT(t)
+	ds.DoSetupTest()
+	var err error
+	ds.ctx, err = haqqtestutil.CommitAndCreateNewCtx(ds.ctx, ds.app, time.Second, nil)
+	require.NoError(t, err)
+	signer := sdk.AccAddress(ds.address.Bytes())
+	val := ds.validators[0]
+	// an existing delegation with outstanding rewards
+	_, err = ds.app.StakingKeeper.Delegate(ds.ctx, signer, sdk.NewInt(1e18), 1, val, true)
+	require.NoError(t, err)
+	rewards := sdk.NewInt(1e18)
+	require.NoError(t, haqqtestutil.FundModuleAccount(ds.ctx, ds.app.BankKeeper, "distribution", sdk.NewCoins(sdk.NewCoin(ds.bondDenom, rewards.MulRaw(10)))))
+	ds.ctx, err = haqqtestutil.CommitAndCreateNewCtx(ds.ctx, ds.app, time.Second, nil)
+	require.NoError(t, err)
+	v, _ := ds.app.StakingKeeper.GetValidator(ds.ctx, val.GetOperator())
+	ds.app.DistrKeeper.AllocateTokensToValidator(ds.ctx, v, sdk.NewDecCoins(sdk.NewDecCoin(ds.bondDenom, rewards.MulRaw(10))))
+	ds.ctx, err = haqqtestutil.CommitAndCreateNewCtx(ds.ctx, ds.app, time.Second, nil)
+	require.NoError(t, err)
+
+	supplyBefore := ds.app.BankKeeper.GetSupply(ds.ctx, ds.bondDenom).Amount
+	_, ethRes, err := contracts.Call(ds.ctx, ds.app, contracts.CallArgs{
+		ContractAddr: ds.precompile.Address(), ContractABI: ds.precompile.ABI, PrivKey: ds.privKey,
+		MethodName: staking.DelegateMethod, Args: []interface{}{ds.address, val.OperatorAddress, big.NewInt(1_000_000)}, GasLimit: 3_000_000,
+	})
+	require.NoError(t, err)
+	require.False(t, ethRes.Failed(), ethRes.VmError)
+	supplyAfter := ds.app.BankKeeper.GetSupply(ds.ctx, ds.bondDenom).Amount
+	t.Logf("supply diff after an EOA -> staking.delegate with pending rewards: %s", supplyAfter.Sub(supplyBefore))
+	require.True(t, supplyAfter.Equal(supplyBefore), "total supply of the native coin changed by %s during an EVM transaction", supplyAfter.Sub(supplyBefore))
+}
